@@ -176,7 +176,7 @@ def compound_faults(rng):
 
 class C12(Check):
     pid = "C12"
-    props = ["C12_positions.v"]
+    props = ["C12_positions.v", "C12_token_in_node.v"]
     position = True
     rule = ("multi-line programs (blank lines, comments, tabs, CRLF, non-ASCII in strings/comments/identifiers) with ONE fault planted at "
             "a known line and byte span: lexical (illegal character, also inside a multi-byte character and after , ; in break ..., "
